@@ -130,7 +130,7 @@ type realResult struct {
 }
 
 func realLegs(tier string, seed uint64, realBin string, a *core.Agg) ([]*core.Violation, error) {
-	n := 16
+	n := 24
 	if tier == "thorough" {
 		n = 320
 	}
